@@ -750,6 +750,7 @@ pub fn run(ctx: &Ctx) -> PropertyReport {
         for kind in ["BinaryString", "SharedString", "NumberSequence", "ColorSequence", "ContentId"] {
             cases.push(LargeCase::LongValue { kind: kind.to_string(), n: 65_537 });
         }
+        cases.extend(super::c01::more_large_cases(false));
         rep.push(ctx.run_list("large", cases, true, |c: &LargeCase, ctx: &mut CaseCtx| {
             body(&super::c01::large_forest(c), ctx)?;
             ctx.nontrivial();
